@@ -54,7 +54,7 @@ def class_match(a, v, sx):
         import collections.abc as abc
         return {"list": isinstance(v, list), "blist": isinstance(v, list), "mutseq": isinstance(v, abc.MutableSequence), "seq": isinstance(v, abc.Sequence),
                 "coll": isinstance(v, abc.Collection), "vartuple": isinstance(v, tuple), "set": isinstance(v, set), "mutset": isinstance(v, abc.MutableSet),
-                "absset": isinstance(v, abc.Set), "frozenset": isinstance(v, frozenset)}[a.c]
+                "absset": isinstance(v, abc.Set), "frozenset": isinstance(v, frozenset), "deque": type(v).__name__ == "deque"}[a.c]
     if isinstance(a, Tup):
         return isinstance(v, tuple)
     if isinstance(a, MapT):
